@@ -153,7 +153,8 @@ func returnsOnlyErrors(b *ssa.BasicBlock) (bool, int) {
 			if len(last.Results) == 0 {
 				return false, n
 			}
-			r := last.Results[len(last.Results)-1]
+			rr := retResults(last)
+			r := rr[len(rr)-1]
 			if isNilConst(r) {
 				return false, n
 			}
@@ -356,4 +357,31 @@ func fnKey(fn *ssa.Function) string {
 	s = strings.ReplaceAll(s, modPath+"/", "")
 	s = strings.ReplaceAll(s, modPath, "main")
 	return s
+}
+
+// retResults resolves the operands of a Return through go/ssa's defer spilling: in a function with
+// defers the results are stored to local cells, `rundefers` runs, and the cells are re-loaded.
+func retResults(ret *ssa.Return) []ssa.Value {
+	out := make([]ssa.Value, len(ret.Results))
+	for i, r := range ret.Results {
+		out[i] = r
+		u, ok := r.(*ssa.UnOp)
+		if !ok || u.Op != token.MUL {
+			continue
+		}
+		cell, ok := u.X.(*ssa.Alloc)
+		if !ok {
+			continue
+		}
+		// last store to the cell in the same block before the load
+		for _, in := range ret.Block().Instrs {
+			if in == ssa.Instruction(u) {
+				break
+			}
+			if st, ok := in.(*ssa.Store); ok && st.Addr == cell {
+				out[i] = st.Val
+			}
+		}
+	}
+	return out
 }
